@@ -14,7 +14,8 @@ const c03Rule = "generated histories (<= 40 events, 2..12 objects split over hos
 	"timeperiod flips and refreshes (with errors); the virtual clock advances by 0..70 s between events so that the 60 s full scan is due and not due; " +
 	"flavours: lmd_last_cache_update+last_update, last_update, last_check only, lmd_last_cache_update only x SyncIsExecuting on/off x UpdateOffset {1,3,5} x UpdateInterval {3,7}; " +
 	"one history per run has 150+ hosts whose acknowledgements only the full scan can find (timestamp filter cut at 149, second scan for the rest); " +
-	"12% of the histories are of class D19 (strings change without last_check on a backend without last_update). non-trivial: the served rows changed at least twice; distinct by input"
+	"the backend keeps its rows in primary key / reversed / per step shuffled order; 1 in 6 objects was never checked (last_check 0) and mostly changes without a check; " +
+	"bursts change every object of a table inside one window (filtered answer as long as the table); 12% of the histories are of class D19 (strings change without last_check on a backend without last_update). non-trivial: the served rows changed at least twice; distinct by input"
 
 type c03GenState struct {
 	r       *vRand
@@ -54,6 +55,9 @@ func (g *c03GenState) mut() {
 		Strs: c03CopyInts(obj.Strs), Exec: obj.Exec, Stamp: true}
 	nv := g.ver[t][k] + 1
 	kind := r.intn(100)
+	if obj.Lc == 0 && r.chance(2, 3) {
+		kind = 55 + r.intn(25) // a never-checked object is acknowledged, gets a downtime, ... and stays unchecked
+	}
 	if !g.d19 && g.clock <= g.lastMut[t][k] {
 		// outside class D19 an object does not change twice within one second
 		g.clock = g.lastMut[t][k] + 1
@@ -118,6 +122,35 @@ func (g *c03GenState) mut() {
 	g.in.Events = append(g.in.Events, ev)
 }
 
+// burst: every object of one table gets a check result, then a window that contains all of them
+// (the filtered answer has as many rows as the table).
+func (g *c03GenState) burst() {
+	r := g.r
+	t := r.intn(2)
+	for k := range g.cur[t] {
+		if g.clock <= g.lastMut[t][k] {
+			g.clock = g.lastMut[t][k] + 1
+		}
+	}
+	for k := range g.cur[t] {
+		obj := &g.cur[t][k]
+		nv := g.ver[t][k] + 1
+		ev := c03Event{Kind: "mut", Svc: t == 1, K: k, T: g.clock, Check: true, Stamp: true, Scan: c03CopyInts(obj.Scan), Nc: g.clock + 60,
+			Ints: []int{r.intn(4), nv, nv * 7, nv % 50, obj.Ints[4]}, Strs: []int{nv, nv, nv, nv, nv, nv}}
+		obj.Lc, obj.St, obj.Nc, obj.Ints, obj.Strs, obj.Exec = ev.T, ev.T, ev.Nc, c03CopyInts(ev.Ints), c03CopyInts(ev.Strs), 0
+		g.ver[t][k] = nv
+		g.lastMut[t][k] = ev.T
+		g.in.Events = append(g.in.Events, ev)
+	}
+	g.clock += g.in.Off + 1 + r.intn(3)
+	if g.glu != 0 && r.chance(3, 4) {
+		g.in.Events = append(g.in.Events, c03Event{Kind: "delta", From: g.glu, Until: g.clock})
+		g.glu = g.clock
+	} else {
+		g.tick()
+	}
+}
+
 func (g *c03GenState) delta(forceOK bool) {
 	r := g.r
 	ev := c03Event{Kind: "delta", From: g.glu, Until: g.clock}
@@ -157,6 +190,9 @@ func (g *c03GenState) tick() {
 
 func c03NewObj(r *vRand, t0, ntp int) c03Obj {
 	lc := t0 - 1 - r.intn(300)
+	if r.chance(1, 6) {
+		lc = 0 // never checked
+	}
 
 	return c03Obj{
 		Lc: lc, St: lc + r.intn(t0-lc), Nc: lc + 300,
@@ -179,6 +215,8 @@ func c03Gen(r *vRand, _ int) *c03Input {
 	default:
 		in.Cache = true
 	}
+	in.Order = vPick(r, []string{"", "reversed", "reversed", "shuffled", "shuffled"})
+	in.OrderSeed = r.intn(1000)
 	ntp := 2 + r.intn(2)
 	for range ntp {
 		in.Tps = append(in.Tps, r.intn(2))
@@ -208,6 +246,8 @@ func c03Gen(r *vRand, _ int) *c03Input {
 			g.advance()
 		}
 		switch k := r.intn(100); {
+		case k < 7 && len(g.cur[0])+len(g.cur[1]) <= 8:
+			g.burst()
 		case k < 45:
 			g.mut()
 		case k < 68:
@@ -256,11 +296,14 @@ func c03Gen(r *vRand, _ int) *c03Input {
 // without last_update (the window never sees them), so that the full scan has to cut its timestamp filter
 // (missedTimestampMaxFilter) and needs a second scan, more than 60 s later, for the rest.
 func c03GenBig(r *vRand) *c03Input {
-	in := &c03Input{Off: 3, Interval: 7, T0: 1000, Sync: r.chance(1, 2), Tps: []int{1, 0}}
+	in := &c03Input{Off: 3, Interval: 7, T0: 1000, Sync: r.chance(1, 2), Tps: []int{1, 0}, Order: vPick(r, []string{"", "reversed"})}
 	nh := 158 + r.intn(30)
 	for i := range nh {
 		obj := c03NewObj(r, in.T0, 2)
 		obj.Lc = 100 + 3*i + r.intn(2)
+		if i == 0 && r.chance(2, 3) {
+			obj.Lc = 0 // the list of missed timestamps starts with "never checked"
+		}
 		obj.St = obj.Lc
 		obj.Nc = obj.Lc + 300
 		in.Hosts = append(in.Hosts, obj)
@@ -331,6 +374,14 @@ func c03Stats(meta *vMeta, in *c03Input, obs []c03Obs, notes []string) {
 	}
 	meta.count("flavour=" + flavour)
 	meta.count(fmt.Sprintf("sync_is_executing=%v", in.Sync))
+	meta.count("backend answer order=" + map[string]string{"": "primary key"}[in.Order] + in.Order)
+	for _, objs := range [][]c03Obj{in.Hosts, in.Svcs} {
+		for i := range objs {
+			if objs[i].Lc == 0 {
+				meta.count("objects never checked (last_check 0)")
+			}
+		}
+	}
 	if n := len(in.Hosts) + len(in.Svcs); n > 12 {
 		meta.count("objects>150 (timestamp filter cut)")
 	} else {
